@@ -21,3 +21,8 @@ Proof.
   intros simple istart iend start end_. unfold C16Gen.gf_matched, gf_matched, xle.
   destruct simple, istart, iend, start, end_; cbn [xlt negb andb orb]; try reflexivity; lia.
 Qed.
+
+Lemma get_filtered_expressions : forall tag comp simple istart iend start end_,
+    C16Gen.gf_skip_tag tag comp || C16Gen.gf_skip_time istart iend start end_ = gf_skip tag comp istart iend start end_
+    /\ C16Gen.gf_matched simple istart iend start end_ = gf_matched simple istart iend start end_.
+Proof. intros. split; [apply Gen_gf_skip_eq|apply Gen_gf_matched_eq]. Qed.
